@@ -39,17 +39,17 @@ theorem prevOcc_ge_of_mem {P : Nat → Bool} {p q : Nat} (hq : P q = true) (hqp 
   | none => exfalso; chain_finish
   | some x => refine ⟨x, rfl, ?_⟩; chain_finish
 
-theorem occ_of_occV {s : Slots} {v q : Nat} (h : occV s v q = true) : occ s q = true := by
-  unfold occV at h
-  unfold occ
+theorem occ_of_occV {s : Slots} {v q : Nat} (h : occVAt s v q = true) : occAt s q = true := by
+  unfold occVAt at h
+  unfold occAt
   cases hs : slotAt s q with
   | none => rw [hs] at h; cases h
   | some _ => rfl
 
 /-- the variable has an op somewhere -/
-def hasOpsV (s : Slots) (v : Nat) : Bool := (firstOcc (occV s v) s.length).isSome
+def hasOpsV (s : Slots) (v : Nat) : Bool := (firstOcc (occVAt s v) s.length).isSome
 
-theorem hasOpsV_of_occV {s : Slots} {v q : Nat} (h : occV s v q = true) : hasOpsV s v = true := by
+theorem hasOpsV_of_occV {s : Slots} {v q : Nat} (h : occVAt s v q = true) : hasOpsV s v = true := by
   obtain ⟨f, hf⟩ := first_some_of_mem h (occV_lt h)
   unfold hasOpsV; rw [hf]; rfl
 
@@ -98,7 +98,7 @@ theorem WG_fill {fl : Nat → Bool} {a : Cursor} (hw : WG nv s p fl a) (v : Nat)
                unfilled := a.unfilled - 1 } := by
   have hocc : hasOpsV s v = true := by
     unfold prevRel at hpr
-    cases hx : prevOcc (occV s v) p with
+    cases hx : prevOcc (occVAt s v) p with
     | none => rw [hx] at hpr; cases hpr
     | some x => exact hasOpsV_of_occV (prevOcc_lt hx).2
   constructor
@@ -134,8 +134,8 @@ theorem WG_fill {fl : Nat → Bool} {a : Cursor} (hw : WG nv s p fl a) (v : Nat)
 
 /-- when every variable that has an op below `p` is filled, the lists are the scan lists -/
 theorem WG_final {fl : Nat → Bool} {a : Cursor} (hw : WG nv s p fl a)
-    (hall : ∀ v, v < nv → ∀ x, prevOcc (occV s v) p = some x → fl v = true) (u : Nat) :
-    { a with lastP := prevOcc (occ s) p, unfilled := u } = cursorByScan nv s p u := by
+    (hall : ∀ v, v < nv → ∀ x, prevOcc (occVAt s v) p = some x → fl v = true) (u : Nat) :
+    { a with lastP := prevOcc (occAt s) p, unfilled := u } = cursorByScan nv s p u := by
   cases a with
   | mk lp lv lr sm uf =>
     have h1 := hw.hm; have h2 := hw.hv; have h3 := hw.hr
@@ -152,7 +152,7 @@ theorem WG_final {fl : Nat → Bool} {a : Cursor} (hw : WG nv s p fl a)
       | false =>
         simp only [Bool.false_eq_true, if_false]
         unfold prevRel
-        cases hx : prevOcc (occV s v) p with
+        cases hx : prevOcc (occVAt s v) p with
         | none => rfl
         | some x => have := hall v hv' x hx; rw [hf] at this; cases this
     · apply List.map_congr_left
@@ -163,12 +163,12 @@ theorem WG_final {fl : Nat → Bool} {a : Cursor} (hw : WG nv s p fl a)
       | false =>
         simp only [Bool.false_eq_true, if_false]
         unfold prevRel
-        cases hx : prevOcc (occV s v) p with
+        cases hx : prevOcc (occVAt s v) p with
         | none => rfl
         | some x => have := hall v hv' x hx; rw [hf] at this; cases this
 
 theorem WG_all_of_zero {fl : Nat → Bool} {a : Cursor} (hw : WG nv s p fl a) (h0 : a.unfilled = 0) :
-    ∀ v, v < nv → ∀ x, prevOcc (occV s v) p = some x → fl v = true := by
+    ∀ v, v < nv → ∀ x, prevOcc (occVAt s v) p = some x → fl v = true := by
   intro v hv x hx
   have hc := hw.hc
   rw [h0] at hc
@@ -184,7 +184,7 @@ theorem WG_all_of_zero {fl : Nat → Bool} {a : Cursor} (hw : WG nv s p fl a) (h
 
 /-- threshold form: the last occurrence below `p` is at or above `r` -/
 def fil (r v : Nat) : Bool :=
-  match prevOcc (occV s v) p with
+  match prevOcc (occVAt s v) p with
   | some x => decide (r ≤ x)
   | none => false
 
@@ -192,9 +192,9 @@ end Fill
 
 namespace FastOps
 
-/-- the loop inside `fillF` at the node `q = prevOcc occ r` -/
+/-- the loop inside `fillF` at the node `q = prevOcc occAt r` -/
 theorem fillF_WG (nv : Nat) (nb : Option Nat) (s : Slots) (p r q : Nat) (oq : Op) (A : Nat → Bool)
-    (hwf : WF nv nb s) (hrp : r ≤ p) (hq : prevOcc (occ s) r = some q) (hsq : slotAt s q = some oq)
+    (hwf : WF nv nb s) (hrp : r ≤ p) (hq : prevOcc (occAt s) r = some q) (hsq : slotAt s q = some oq)
     (a : Cursor) (hw : WG nv s p (fun w => fil s p r w || A w) a) :
     WG nv s p (fun w => fil s p q w || A w) (fillF q (canonNode s q oq) a).1 := by
   obtain ⟨_, hnodup, hlt, _⟩ := hwf q oq hsq
@@ -227,7 +227,7 @@ theorem fillF_WG (nv : Nat) (nb : Option Nat) (s : Slots) (p r q : Nat) (oq : Op
       have hxmem : x.1 ∈ oq.vars := List.mem_of_getElem? hx
       have hxn : x.1 < nv := hlt x.1 hxmem
       have hidx := idxOf_of_getElem? hnodup hx
-      have hoccq : occV s x.1 q = true := occV_of_mem hsq hxmem
+      have hoccq : occVAt s x.1 q = true := occV_of_mem hsq hxmem
       obtain ⟨y, hy, hqy⟩ := prevOcc_ge_of_mem hoccq (by omega : q < p)
       have hsub : a'.varToSubvar x.1 = some x.1 := by simp [Cursor.varToSubvar, hI.hm]
       simp only [hsub]
@@ -284,7 +284,7 @@ theorem fillF_WG (nv : Nat) (nb : Option Nat) (s : Slots) (p r q : Nat) (oq : Op
   · intro w _
     simp only [List.contains_reverse]
     unfold fil
-    cases hx : prevOcc (occV s w) p with
+    cases hx : prevOcc (occVAt s w) p with
     | none =>
       have hnm : w ∉ oq.vars := by
         intro hm
@@ -317,14 +317,14 @@ theorem fillF_WG (nv : Nat) (nb : Option Nat) (s : Slots) (p r q : Nat) (oq : Op
     cases hw' with
     | inl h =>
       unfold fil at h
-      cases hx : prevOcc (occV s w) p with
+      cases hx : prevOcc (occVAt s w) p with
       | none => rw [hx] at h; cases h
       | some x => unfold prevRel; rw [hx]; rfl
     | inr h => exact hAs w h
 
 
-theorem fil_all_of_none (s : Slots) (p r : Nat) (hr : prevOcc (occ s) r = none) (A : Nat → Bool) (nv : Nat) :
-    ∀ v, v < nv → ∀ x, prevOcc (occV s v) p = some x → (fil s p r v || A v) = true := by
+theorem fil_all_of_none (s : Slots) (p r : Nat) (hr : prevOcc (occAt s) r = none) (A : Nat → Bool) (nv : Nat) :
+    ∀ v, v < nv → ∀ x, prevOcc (occVAt s v) p = some x → (fil s p r v || A v) = true := by
   intro v _ x hx
   have hxocc := occ_of_occV (prevOcc_lt hx).2
   rw [prevOcc_none_iff] at hr
@@ -338,21 +338,21 @@ theorem fil_all_of_none (s : Slots) (p r : Nat) (hr : prevOcc (occ s) r = none) 
 /-- the walk of `iter_ops_above_p` -/
 theorem fillWalk_WG (nv : Nat) (nb : Option Nat) (s : Slots) (p : Nat) (hwf : WF nv nb s) (A : Nat → Bool) :
     ∀ (fuel r : Nat) (a : Cursor), r ≤ p → WG nv s p (fun w => fil s p r w || A w) a →
-      (∀ q, prevOcc (occ s) r = some q → q < fuel) →
-      ∃ fl, WG nv s p fl (fillWalk (canon nv nb s) fuel (prevOcc (occ s) r) a) ∧
-        (∀ v, v < nv → ∀ x, prevOcc (occV s v) p = some x → fl v = true) := by
+      (∀ q, prevOcc (occAt s) r = some q → q < fuel) →
+      ∃ fl, WG nv s p fl (fillWalk (canon nv nb s) fuel (prevOcc (occAt s) r) a) ∧
+        (∀ v, v < nv → ∀ x, prevOcc (occVAt s v) p = some x → fl v = true) := by
   intro fuel
   induction fuel with
   | zero =>
     intro r a _ hw hf
-    have hr : prevOcc (occ s) r = none := by
-      cases h : prevOcc (occ s) r with
+    have hr : prevOcc (occAt s) r = none := by
+      cases h : prevOcc (occAt s) r with
       | none => rfl
       | some q => have := hf q h; omega
     exact ⟨_, by simpa [fillWalk] using hw, fil_all_of_none s p r hr A nv⟩
   | succ fuel ih =>
     intro r a hrp hw hf
-    cases hr : prevOcc (occ s) r with
+    cases hr : prevOcc (occAt s) r with
     | none => exact ⟨_, by simpa [fillWalk] using hw, fil_all_of_none s p r hr A nv⟩
     | some q =>
       obtain ⟨hqr, hqocc⟩ := prevOcc_lt hr
@@ -361,7 +361,7 @@ theorem fillWalk_WG (nv : Nat) (nb : Option Nat) (s : Slots) (p : Nat) (hwf : WF
       have hstep := fillF_WG nv nb s p r q oq A hwf hrp hr hsq a hw
       by_cases hcont : (fillF q (canonNode s q oq) a).2 = true
       · simp only [hcont, if_true]
-        have hprev : (canonNode s q oq).previousP = prevOcc (occ s) q := rfl
+        have hprev : (canonNode s q oq).previousP = prevOcc (occAt s) q := rfl
         rw [hprev]
         apply ih q _ (by omega) hstep
         intro q' hq'
@@ -455,12 +455,12 @@ theorem fillAtP_WG (nv : Nat) (nb : Option Nat) (s : Slots) (p : Nat) (op : Op) 
   have hfil : ∀ w, fil s p p w = false := by
     intro w
     unfold fil
-    cases hx : prevOcc (occV s w) p with
+    cases hx : prevOcc (occVAt s w) p with
     | none => rfl
     | some x => have := (prevOcc_lt hx).1; simp; omega
   have hfold' : WG nv s p (fun w => op.vars.reverse.contains w && (prevRel s w p).isSome)
       { (List.foldl _ a (op.vars.map (fun v => (v, prevRel s v p)))) with
-        lastP := prevOcc (occ s) p } :=
+        lastP := prevOcc (occAt s) p } :=
     ⟨hfold.hm, hfold.hv, hfold.hr, hfold.hc, hfold.hs⟩
   apply WG_congr nv s p _ _ hfold'
   · intro w _; simp [hfil]
@@ -489,8 +489,8 @@ theorem emptyArgs_WG (nv : Nat) (nb : Option Nat) (s : Slots) (p : Nat) :
     apply List.filter_congr
     intro v _
     simp only [Function.comp, hasOpsV, canonVarEnd, firstRel, lastRel]
-    have := @first_some_iff_last_some (occV s v) s.length
-    cases h1 : firstOcc (occV s v) s.length <;> cases h2 : lastOcc (occV s v) s.length <;>
+    have := @first_some_iff_last_some (occVAt s v) s.length
+    cases h1 : firstOcc (occVAt s v) s.length <;> cases h2 : lastOcc (occVAt s v) s.length <;>
       simp [h1, h2, zipOpt] at this ⊢
   · intro v hv; cases hv
 
@@ -502,20 +502,20 @@ theorem fillArgsAtP_canon (nv : Nat) (nb : Option Nat) (s : Slots) (p : Nat) (hw
   have hE := emptyArgs_WG nv nb s p
   -- what the walk leaves in the per-variable tables
   have hW : ∃ fl, WG nv s p fl ((canon nv nb s).fillArgsAtP p (canon nv nb s).getEmptyArgsAll) ∧
-      (∀ v, v < nv → ∀ x, prevOcc (occV s v) p = some x → fl v = true) := by
+      (∀ v, v < nv → ∀ x, prevOcc (occVAt s v) p = some x → fl v = true) := by
     unfold fillArgsAtP
     by_cases hu : (canon nv nb s).getEmptyArgsAll.unfilled > 0
     · simp only [hu, if_true, getNode_canon]
       have hfp : ∀ w, fil s p p w = false := by
         intro w
         unfold fil
-        cases hx : prevOcc (occV s w) p with
+        cases hx : prevOcc (occVAt s w) p with
         | none => rfl
         | some x => have := (prevOcc_lt hx).1; simp; omega
       cases hsp : slotAt s p with
       | none =>
         simp only [Option.map_none]
-        have hs : scanDown (canon nv nb s) p = prevOcc (occ s) p := by
+        have hs : scanDown (canon nv nb s) p = prevOcc (occAt s) p := by
           unfold scanDown
           apply prevOcc_congr
           intro k; rw [← occ_abs, abs_canon]
@@ -528,7 +528,7 @@ theorem fillArgsAtP_canon (nv : Nat) (nb : Option Nat) (s : Slots) (p : Nat) (hw
         obtain ⟨A, hA⟩ := fillAtP_WG nv nb s p op hwf hsp _ hE
         by_cases hcont : (fillAtP (canonNode s p op) (canon nv nb s).getEmptyArgsAll).2 = true
         · simp only [hcont, if_true]
-          have hprev : (canonNode s p op).previousP = prevOcc (occ s) p := rfl
+          have hprev : (canonNode s p op).previousP = prevOcc (occAt s) p := rfl
           rw [hprev]
           apply fillWalk_WG nv nb s p hwf A (p + 1) p _ (Nat.le_refl p) hA
           intro q hq; have := (prevOcc_lt hq).1; omega
@@ -550,7 +550,7 @@ theorem fillArgsAtP_canon (nv : Nat) (nb : Option Nat) (s : Slots) (p : Nat) (hw
     have hz := WG_all_of_zero nv s p hE hu
     rw [prevOcc_none_iff]
     intro k hk
-    cases hocc : occ s k with
+    cases hocc : occAt s k with
     | false => rfl
     | true =>
       exfalso
